@@ -84,4 +84,22 @@ def monthPlus (m : Int) (k : Int) : Int := (m - 1 + k) % 12 + 1
 def yearMonthPlus (y m k : Int) : Int × Int := (y + (m - 1 + k) / 12, (m - 1 + k) % 12 + 1)
 def weekdayPlus (w k : Int) : Int := (w + k) % 7
 
+
+/-! ### weekday-indexed dates ([time.cal.ymwd], [time.cal.ymwdlast]) in terms of the calendar above -/
+
+/-- day number of the `i`-th weekday `w` of month (y, m); `i = 0` is the week before the first -/
+def ymwDays (y : Int) (m : Nat) (w : Int) (i : Int) : Int :=
+  let first := daysOf ⟨y, m, 1⟩
+  first + (w - weekday first) % 7 + (i - 1) * 7
+
+/-- day number of the last weekday `w` of month (y, m) -/
+def ymwlDays (y : Int) (m : Nat) (w : Int) : Int :=
+  let lastD := daysOf ⟨y, m, monthLength y m⟩
+  lastD - (weekday lastD - w) % 7
+
+/-- `year_month_weekday::ok()` -/
+def ymwOk (y : Int) (m : Nat) (w : Int) (i : Int) : Bool :=
+  y != -32768 && 1 ≤ m && m ≤ 12 && 0 ≤ w && w ≤ 6 && 1 ≤ i && i ≤ 5 &&
+    (i ≤ 4 || decide ((w - weekday (daysOf ⟨y, m, 1⟩)) % 7 + (i - 1) * 7 + 1 ≤ (monthLength y m : Int)))
+
 end Tetl.C11.Spec
